@@ -360,7 +360,7 @@ def body_threads(case, ctx):
     import numba
     import xarray as xr
     from xrspatial import convolution, focal, proximity
-    n = 128
+    n = case.get("n", 128)
     i, j = np.mgrid[0:n, 0:n]
     a = (((i * 37 + j * 11) % 101) * 0.25).astype("float64")
     a[(i * 7 + j) % 53 == 0] = np.nan
@@ -378,6 +378,14 @@ def body_threads(case, ctx):
             return focal.hotspots(ras.fillna(1), kern).data
         if which == "focal_mean":
             return focal.mean(ras, passes=2).data
+        if which == "focal_stats":
+            return focal.focal_stats(ras, kern, stats_funcs=["max", "sum"]).data
+        if which in ("slope", "aspect", "curvature"):
+            import xrspatial
+            return getattr(xrspatial, which)(ras.fillna(2.0)).data
+        if which == "regions":
+            import xrspatial
+            return xrspatial.regions(np.floor(ras.fillna(0)) % 3).data
         return proximity(tg, max_distance=case.get("md", np.inf)).data
     r = R(nt=True)
     r.label("threads_fn=" + case["fn"])
@@ -561,6 +569,10 @@ def alt_prox_cases(fn):
             yield {"sub": "seq", "steps": [{"op": "call", "d": d, "repeat": i == 1} for i, d in enumerate(seq)], "designed": "alt_prox"}
 
 
+# rasters below AND above typical "large input" thresholds (128x128 = 16 384 cells, 320x320 = 102 400 cells)
+THREAD_CASES_BIG = [{"sub": "threads", "fn": f, "k": k, "n": 320} for f, k in (
+    ("focal_apply", "asym5x3"), ("focal_stats", "cross3"), ("convolution_2d", "w3"), ("hotspots", "cross3"), ("focal_mean", "cross3"),
+    ("slope", "cross3"), ("aspect", "cross3"), ("curvature", "cross3"), ("regions", "cross3"), ("proximity", "cross3"))]
 THREAD_CASES = [{"sub": "threads", "fn": "focal_apply", "k": "asym5x3"}, {"sub": "threads", "fn": "convolution_2d", "k": "w3"},
                 {"sub": "threads", "fn": "hotspots", "k": "cross3"}, {"sub": "threads", "fn": "focal_mean", "k": "cross3"},
                 {"sub": "threads", "fn": "proximity", "k": "cross3"}, {"sub": "threads", "fn": "proximity", "k": "cross3", "md": 9.0}]
@@ -582,6 +594,8 @@ def shards(tier):
             ctx, body_seq, sweep_cases(fams, ctx.seed, take), space="designed one-parameter sweeps (%s), fraction %.2f" % ("+".join(fams), take))))
     for fn in ("proximity", "allocation", "direction"):
         out.append(("alt_prox_%s" % fn, lambda ctx, fn=fn: drive_enum(ctx, body_seq, alt_prox_cases(fn), space="designed proximity alternation histories (%s)" % fn, size=4)))
+    for bi in range(2):
+        out.append(("threads_big#%d" % bi, lambda ctx, bi=bi: drive_enum(ctx, body_threads, THREAD_CASES_BIG[bi::2], space="prange kernels x thread counts (320x320)", size=5)))
     out.append(("threads#0", lambda ctx: drive_enum(ctx, body_threads, THREAD_CASES[0::2], space="prange kernels x thread counts", size=3)))
     out.append(("threads#1", lambda ctx: drive_enum(ctx, body_threads, THREAD_CASES[1::2], space="prange kernels x thread counts", size=3)))
     return out
